@@ -134,21 +134,25 @@ def _first_extreme(vals, greater):
     return bi
 
 
-def h_span(ctx, ts_flags, units):
-    """ts_flags: per step, whether it has a transition state"""
+def h_span(ctx, ts_flags, units, chain=False):
+    """ts_flags: per step, whether it has a transition state; chain: every step starts from the product species of the step
+    before it, taken with its own (symbolic) stoichiometric coefficient, so consecutive states share species but not values"""
     from pmutt.reaction import Reaction, Reactions
     from pmutt import constants as c
     T = ctx.real('T', 50, 5000)
     P = ctx.real('P', 1e-4, 1e3)
     rx, G = [], []
     RT = c.R(units + '/K') * T
+    prev = None
     for i, ts in enumerate(ts_flags):
-        a = StubSpecies(ctx, 'R%d' % i, quantities=['GoRT'])
+        a = prev if (chain and prev is not None) else StubSpecies(ctx, 'R%d' % i, quantities=['GoRT'])
+        nu = ctx.real('nu%d' % i, 0.25, 4) if (chain and prev is not None) else 1.
         b = StubSpecies(ctx, 'P%d' % i, quantities=['GoRT'])
+        prev = b
         t = StubSpecies(ctx, 'TS%d' % i, quantities=['GoRT']) if ts else None
-        rx.append(Reaction(reactants=[a], reactants_stoich=[1.], products=[b], products_stoich=[1.],
+        rx.append(Reaction(reactants=[a], reactants_stoich=[nu], products=[b], products_stoich=[1.],
                            transition_state=[t] if ts else None, transition_state_stoich=[1.] if ts else None))
-        G.append(ref_val(a, 'GoRT', T, P) * RT)
+        G.append(nu * ref_val(a, 'GoRT', T, P) * RT)
         if ts:
             G.append(ref_val(t, 'GoRT', T, P) * RT)
         G.append(ref_val(b, 'GoRT', T, P) * RT)
@@ -197,6 +201,9 @@ def groups(tier):
     for fl in spans:
         g.append(dict(name='E_span/steps=%s' % ''.join('T' if f else 'n' for f in fl), harness=h_span,
                       params=dict(ts_flags=fl, units='kJ/mol'), max_paths=20000))
+    for fl in ([(False, False), (True, False)] + ([(False, True), (False, False, False)] if th else [])):
+        g.append(dict(name='E_span/chained-steps=%s' % ''.join('T' if f else 'n' for f in fl), harness=h_span,
+                      params=dict(ts_flags=fl, units='kJ/mol', chain=True), max_paths=20000))
     for x in g:
         x['quotient_vars'] = True
     return g
